@@ -1,6 +1,7 @@
 //! Correspondence harness: runs the implementation on generated cases and prints one case
 //! line per case ("<channel> key=value ...") for the model driver.
 mod art;
+mod flags;
 mod util;
 
 use std::io::Write;
@@ -33,6 +34,7 @@ fn main() {
     };
     match args[1].as_str() {
         "art" => art::run(seed, count, maxn, &mode, &mut out),
+        "flags" => flags::run(seed, count, &mut out),
         other => {
             eprintln!("unknown channel {other}");
             std::process::exit(2);
